@@ -6,7 +6,8 @@ validation of `pydra/compose/base/task.py`.
 
 The functions mirror *the algorithm the code uses*, including its defects:
   * `splitter2rpn/_ordering/_iterate_list`         → `toRPN`
-  * `State.splits` (stack machine, global `keys`)   → `splitsStep`, `runToks`, `splits`
+  * `State.splits` (stack machine; keys per stack entry since the repair of D1; the old global-`keys` machine is kept in
+    `OldKeys.lean`) → `splitsStep`, `runToks`, `splits`
   * `_processing_terms`, `_single_op_splits`        → `processingTerms`, the `[.f n]` case of `splits`
   * `iter_splits`                                   → `iterSplits`
   * `input_shape`, `flatten`, `map_splits`          → `inputShape`, `flatten`, `elementAt`, `statesVal`
@@ -99,13 +100,15 @@ end
 /-! ### State.splits -/
 
 /-- An entry of the `stack` in `State.splits`: a field name not yet processed (a Python `str`) or a
-    processed term `(iterator of index tuples, shape)`. -/
+    processed term `(iterator of index tuples, shape, keys)` — after the repair of D1 every processed term carries the
+    names of its own variables, in the order of the indices its iterator yields. -/
 inductive Item where
   | raw (n : Name)
-  | done (rows : List (List Nat)) (shape : List Nat)
+  | done (rows : List (List Nat)) (shape : List Nat) (keys : List Name)
   deriving DecidableEq, Repr
 
-/-- The two local variables of `State.splits` that survive an iteration: `stack` and the *global* `keys`. -/
+/-- The two local variables of `State.splits` that survive an iteration: `stack` and `keys` (the names of the last
+    operation processed; this is what the function returns next to the iterator). -/
 structure M where
   stack : List Item
   keys : List Name
@@ -132,41 +135,29 @@ def prodRows (a b : List (List Nat)) : List (List Nat) := a.flatMap (fun l => b.
 def processingTerms (env : ShapeEnv) (n : Name) : List Nat × List (List Nat) × List Name :=
   (env n, rawRows (env n), [n])
 
-/-- shape check and `pushval = (op[token](var_ind_L, var_ind_R), newshape)` -/
-def pushVal (dot : Bool) (shL : List Nat) (indL : List (List Nat)) (shR : List Nat) (indR : List (List Nat)) :
-    Except Err Item :=
-  if dot then
-    if shL ≠ shR then .error .shape else .ok (.done (zipRows indL indR) shR)
-  else .ok (.done (prodRows indL indR) (shL ++ shR))
+/-- an operand popped from the stack, unpacked: `(shape, var_ind, keys)` -/
+def unpack (env : ShapeEnv) : Item → List Nat × List (List Nat) × List Name
+  | .raw n => processingTerms env n                 -- `isinstance(term, str)`: `_processing_terms`
+  | .done rows shape keys => (shape, rows, keys)    -- `var_ind, shape, keys = term`
 
-/-- One iteration of the `for token in splitter_rpn` loop of `State.splits`, with the four
-    `isinstance(term_L, str)` / `isinstance(term_R, str)` cases and their `keys` updates verbatim. -/
+/-- shape check and `pushval = (op[token](var_ind_L, var_ind_R), newshape, keys)` with `keys = keys_L + keys_R` -/
+def pushVal (dot : Bool) (shL : List Nat) (indL : List (List Nat)) (shR : List Nat) (indR : List (List Nat))
+    (keys : List Name) : Except Err Item :=
+  if dot then
+    if shL ≠ shR then .error .shape else .ok (.done (zipRows indL indR) shR keys)
+  else .ok (.done (prodRows indL indR) (shL ++ shR) keys)
+
+/-- One iteration of the `for token in splitter_rpn` loop of `State.splits`. -/
 def splitsStep (env : ShapeEnv) (m : M) : Tok → Except Err M
   | .f n => .ok { m with stack := .raw n :: m.stack }
   | tok =>
     match m.stack with
     | termR :: termL :: st =>
-      match termL, termR with
-      | .raw l, .raw r =>
-        let (shL, indL, keysL) := processingTerms env l
-        let (shR, indR, keysR) := processingTerms env r
-        match pushVal (tok == .dot) shL indL shR indR with
-        | .ok it => .ok ⟨it :: st, m.keys ++ keysL ++ keysR⟩          -- keys = keys + new_keys_L + new_keys_R
-        | .error e => .error e
-      | .raw l, .done indR shR =>
-        let (shL, indL, keysL) := processingTerms env l
-        match pushVal (tok == .dot) shL indL shR indR with
-        | .ok it => .ok ⟨it :: st, keysL ++ m.keys⟩                    -- keys = new_keys_L + keys
-        | .error e => .error e
-      | .done indL shL, .raw r =>
-        let (shR, indR, keysR) := processingTerms env r
-        match pushVal (tok == .dot) shL indL shR indR with
-        | .ok it => .ok ⟨it :: st, m.keys ++ keysR⟩                    -- keys = keys + new_keys_R
-        | .error e => .error e
-      | .done indL shL, .done indR shR =>
-        match pushVal (tok == .dot) shL indL shR indR with
-        | .ok it => .ok ⟨it :: st, m.keys⟩
-        | .error e => .error e
+      let (shL, indL, keysL) := unpack env termL
+      let (shR, indR, keysR) := unpack env termR
+      match pushVal (tok == .dot) shL indL shR indR (keysL ++ keysR) with
+      | .ok it => .ok ⟨it :: st, keysL ++ keysR⟩
+      | .error e => .error e
     | _ => .error .stack
 
 def runToks (env : ShapeEnv) : M → List Tok → Except Err M
@@ -186,7 +177,7 @@ def splits (env : ShapeEnv) (rpn : List Tok) : Except Err (List (List Nat) × Li
     | .error e => .error e
     | .ok m =>
       match m.stack with
-      | .done rows _ :: _ => .ok (rows, m.keys)
+      | .done rows _ _ :: _ => .ok (rows, m.keys)
       | .raw _ :: _ => .error .malformed
       | [] => .error .stack
 
@@ -476,12 +467,20 @@ def splitsGroups (rpn : List Tok) (combiner : List Name) : Except Err GroupsOut 
         else combineFinalGroups combiner s.groups g.list s.keys
       | _ => .error .malformed
 
-/-- `NodeExecution._split_task`: `attrs.evolve(task, **resolved)` where `resolved[name] = vals[state_key]` for the fields
-    found in the job's `states_val` entry; every other input keeps the value of the base task. -/
-def splitTask (base vals : List (Name × Nested)) : List (Name × Nested) :=
+/-- `NodeExecution._split_task`: `attrs.evolve(task, **resolved)` where `resolved[name] = vals[state_key]` (`try … except
+    KeyError`) for the fields found in the job's `states_val` entry — WHATEVER the value is (`α` may contain Python's `None`,
+    `0`, `''`, `[]` …: presence of the key decides, not the truth value) — every other input keeps the value of the base task. -/
+def splitTask {α : Type} (base vals : List (Name × α)) : List (Name × α) :=
   base.map (fun e => match dictGet? vals e.1 with
                      | some x => (e.1, x)
                      | none => e)
+
+/-- documentation variant (NOT the code): looking the value up with `vals.get(state_key)` and substituting only `if state_val is
+    not None` cannot tell an element that is `None` from "field not in the state"; `Option β` models values that may be `None` -/
+def splitTaskNotNone {β : Type} (base vals : List (Name × Option β)) : List (Name × Option β) :=
+  base.map (fun e => match dictGet? vals e.1 with
+                     | some (some x) => (e.1, some x)
+                     | _ => e)
 
 /-! ### remove_inp_from_splitter_rpn -/
 
